@@ -98,15 +98,23 @@ func dumpSession(s *trackaddict.Session) string {
 }
 
 var taPairField = map[string]func(r *trackaddict.Record) *float64{
-	"Speed":                func(r *trackaddict.Record) *float64 { return &r.Speed },
-	"GPS_Altitude":         func(r *trackaddict.Record) *float64 { return &r.GPS.Altitude },
-	"GPS_Accuracy":         func(r *trackaddict.Record) *float64 { return &r.GPS.Accuracy },
-	"PressureAltitute":     func(r *trackaddict.Record) *float64 { return &r.PressureAltitute },
-	"BarometricPressure":   func(r *trackaddict.Record) *float64 { return &r.BarometricPressure },
-	"OBD_ManifoldPressure": func(r *trackaddict.Record) *float64 { return obdField(r, func(o *trackaddict.OBD) *float64 { return o.ManifoldPressure }) },
-	"OBD_CoolantTemp":      func(r *trackaddict.Record) *float64 { return obdField(r, func(o *trackaddict.OBD) *float64 { return o.CoolantTemp }) },
-	"OBD_IntakeTemp":       func(r *trackaddict.Record) *float64 { return obdField(r, func(o *trackaddict.OBD) *float64 { return o.IntakeTemp }) },
-	"OBD_Speed":            func(r *trackaddict.Record) *float64 { return obdField(r, func(o *trackaddict.OBD) *float64 { return o.Speed }) },
+	"Speed":              func(r *trackaddict.Record) *float64 { return &r.Speed },
+	"GPS_Altitude":       func(r *trackaddict.Record) *float64 { return &r.GPS.Altitude },
+	"GPS_Accuracy":       func(r *trackaddict.Record) *float64 { return &r.GPS.Accuracy },
+	"PressureAltitute":   func(r *trackaddict.Record) *float64 { return &r.PressureAltitute },
+	"BarometricPressure": func(r *trackaddict.Record) *float64 { return &r.BarometricPressure },
+	"OBD_ManifoldPressure": func(r *trackaddict.Record) *float64 {
+		return obdField(r, func(o *trackaddict.OBD) *float64 { return o.ManifoldPressure })
+	},
+	"OBD_CoolantTemp": func(r *trackaddict.Record) *float64 {
+		return obdField(r, func(o *trackaddict.OBD) *float64 { return o.CoolantTemp })
+	},
+	"OBD_IntakeTemp": func(r *trackaddict.Record) *float64 {
+		return obdField(r, func(o *trackaddict.OBD) *float64 { return o.IntakeTemp })
+	},
+	"OBD_Speed": func(r *trackaddict.Record) *float64 {
+		return obdField(r, func(o *trackaddict.OBD) *float64 { return o.Speed })
+	},
 }
 
 func obdField(r *trackaddict.Record, f func(*trackaddict.OBD) *float64) *float64 {
@@ -428,7 +436,7 @@ func taMutate(r *rng, text string, s *sink) string {
 
 var taDual = []struct {
 	target, imp, met string
-	conv              string // mul:<const> | f2c
+	conv             string // mul:<const> | f2c
 }{
 	{"Speed", "Speed (MPH)", "Speed (Km/h)", "mul:1.60934"},
 	{"GPS_Altitude", "Altitude (ft)", "Altitude (m)", "mul:0.3048"},
